@@ -472,17 +472,45 @@ def check_diff(prog, rep):
     except Unsupported as e:
         summs = []
         probs.append("cannot summarise diff(): %s" % e)
+    # the per-cell decisions: (facts, point, colour) of every set_pixel in diff itself, or — when the cells are produced
+    # by a closure handed to a constructor helper (`MockDisplay::from_fn(|point| ..)`) — of every return of that closure
+    decisions = []
     for sm in summs:
         for e in sm.calls():
             c = e[1]
             if c[1].split("::")[-1] not in ("set_pixel_unchecked", "set_pixel") or len(c[3]) != 3:
                 continue
-            point, colour = c[3][1], c[3][2]
+            decisions.append((sm.facts, c[3][1], c[3][2]))
+    has_cells = lambda fs: any(fct[0] == "variant" and fct[1][0] == "call" and fct[1][1].endswith("get_pixel") for fct in fs)
+    if not any(has_cells(d_[0]) for d_ in decisions):
+        decisions = []
+        fam, i_ = [df], 0
+        while i_ < len(fam):
+            fam.extend(c_ for c_ in prog.closures_of.get(fam[i_].id, []) if c_ not in fam)
+            i_ += 1
+        for c_ in fam[1:]:
+            if c_.body["argc"] != 2:
+                continue
+            try:
+                cs = Paths(prog, loops="once").of(c_)
+            except Unsupported:
+                continue
+            pt_ = ("param", 2, c_.body["locals"][2].get("name"))
+            for sm in cs:
+                r = sm.ret
+                if r is not None and variant_of(r) is not None and variant_of(r)[0].endswith("Option") and any(fct[0] == "variant" and fct[1][0] == "call" and fct[1][1].endswith("get_pixel") for fct in sm.facts):
+                    decisions.append((sm.facts, pt_, r))
+    receivers = []
+    for facts_, point, colour in decisions:
+        if True:
             key = {}
             neq = None
-            for fct in sm.facts:
+            for fct in facts_:
                 if fct[0] == "variant" and fct[1][0] == "call" and fct[1][1].endswith("get_pixel") and len(fct[1][3]) == 2 and fct[1][3][1] == point and len(fct[2]) == 1:
-                    who = "self" if fct[1][3][0] == ("param", 1, "self") else ("other" if fct[1][3][0] == ("param", 2, "other") else "?")
+                    rc = strip_refs(fct[1][3][0])
+                    if rc not in receivers:
+                        receivers.append(rc)
+                    who = "self" if receivers.index(rc) == 0 else ("other" if receivers.index(rc) == 1 else "?")
                     key[who] = fct[2][0]
                 elif fct[0] in ("eq", "ne") and all(x[0] == "payload" and x[1][0] == "call" and x[1][1].endswith("get_pixel") for x in fct[1:3]):
                     neq = fct[0] == "ne"
@@ -494,6 +522,8 @@ def check_diff(prog, rep):
             if table.get(k, v) != v:
                 probs.append("the case %s records both %s and %s" % (k, table[k], v))
             table[k] = v
+    if len(receivers) != 2:
+        probs.append("the cells of exactly two displays (self, other) must be compared; found %d" % len(receivers))
     want = {("Some", "None", None): "Some", ("None", "Some", None): "Some", ("Some", "Some", True): "Some", ("Some", "Some", False): "None", ("None", "None", None): "None"}
     for k, v in want.items():
         got = table.get(k)
